@@ -6,6 +6,8 @@ import VhostModel.SpecDrv.Locks
 import VhostModel.SpecDrv.Log
 import VhostModel.SpecDrv.Route
 import VhostModel.SpecDrv.Kern
+import VhostModel.SpecDrv.Mem
+import VhostModel.SpecDrv.Vq
 /-! Spec driver: evaluates the property's own rule on a scenario (and, for behavioural families, on
 the observation the implementation produced). Imports nothing generated from /repo. -/
 
@@ -20,6 +22,8 @@ def dispatch (line : String) : String :=
   | "route" :: _ => SpecDrv.Route.run toks
   | "log" :: _ => SpecDrv.Log.run toks
   | "kern" :: _ => SpecDrv.Kern.run toks
+  | "mem" :: _ => SpecDrv.Mem.run toks
+  | "vq" :: _ => SpecDrv.Vq.run toks
   | _ => "bad-family"
 
 partial def loop (h : IO.FS.Stream) (out : IO.FS.Stream) : IO Unit := do
